@@ -134,7 +134,7 @@ func ksAccess(c fiber.Ctx) [][2]string {
 		{"Host", c.Host()}, {"Hostname", c.Hostname()}, {"IP", c.IP()}, {"BaseURL", c.BaseURL()}, {"Scheme", c.Scheme()},
 		{"FormValue(f)", c.FormValue("f")}, {"Body", unsafe.String(unsafe.SliceData(c.Body()), len(c.Body()))},
 		{"BodyRaw", unsafe.String(unsafe.SliceData(c.BodyRaw()), len(c.BodyRaw()))},
-		{"Get(User-Agent)", c.Get("User-Agent")}, {"Get(Referer)", c.Get("Referer")},
+		{"Get(User-Agent)", c.Get("User-Agent")}, {"Get(Referer)", c.Get("Referer")}, {"Get(Content-Type)", c.Get("Content-Type")},
 	}
 	if r := c.Route(); r != nil {
 		for _, p := range r.Params {
@@ -235,7 +235,25 @@ func (w *ksWorld) build(cfg fiber.Config) *fiber.App {
 		if c.Get("X-SetHdr") != "" {
 			c.Set("X-Resp-"+strconv.Itoa(id%3), "r"+strconv.Itoa(id))
 		}
-		return c.Next()
+		if !(w.immutMode && !w.immutable && o != nil) {
+			return c.Next()
+		}
+		// without Immutable: what was read here must read the same until the handler returns
+		var before [][2]string
+		for _, kv := range ksAccess(c) {
+			before = append(before, [2]string{kv[0], strings.Clone(kv[1])})
+		}
+		err := c.Next()
+		after := map[string]string{}
+		for _, kv := range ksAccess(c) {
+			after[kv[0]] = kv[1]
+		}
+		for _, kv := range before {
+			if v, ok := after[kv[0]]; ok && v != kv[1] && !strings.HasPrefix(kv[0], "Params") {
+				w.s.Fail("C06.stable."+accName(kv[0]), "request %d: %s was %q when the first middleware read it and reads differently after the handler chain ran (still inside the handler)", id, kv[0], kv[1])
+			}
+		}
+		return err
 	})
 	final := func(c fiber.Ctx, extra func(m map[string]string)) {
 		id := opID(c)
@@ -283,8 +301,12 @@ func (w *ksWorld) build(cfg fiber.Config) *fiber.App {
 		eq, eh, ec := c.Bind().Query(&q), c.Bind().Header(&hh), c.Bind().Cookie(&ck)
 		var ef, ej error
 		ct := c.Get("Content-Type")
-		if strings.HasPrefix(ct, "application/json") {
-			ej = c.Bind().JSON(&j)
+		if strings.HasPrefix(strings.ToLower(ct), "application/json") {
+			if c.Query("generic") != "" {
+				ej = c.Bind().Body(&j) // dispatches on the content type
+			} else {
+				ej = c.Bind().JSON(&j)
+			}
 		} else if strings.HasPrefix(ct, "application/x-www-form-urlencoded") {
 			ef = c.Bind().Form(&f)
 		}
@@ -299,6 +321,17 @@ func (w *ksWorld) build(cfg fiber.Config) *fiber.App {
 			m["Bind"] = strings.Clone(fmt.Sprintf("%+v %+v %+v %+v %+v errs=%v|%v|%v|%v|%v", q, hh, ck, f, j, eq != nil, eh != nil, ec != nil, ef != nil, ej != nil))
 		})
 		return c.SendString("bound")
+	})
+	app.All("/bind-auto", func(c fiber.Ctx) error {
+		var q bindQ
+		err := c.Bind().WithAutoHandling().Query(&q)
+		final(c, func(m map[string]string) {
+			m["Bind"] = strings.Clone(fmt.Sprintf("%+v err=%v", q, err != nil))
+		})
+		if err != nil {
+			return err
+		}
+		return c.SendString("auto-bound")
 	})
 	app.Post("/go", func(c fiber.Ctx) error {
 		final(c, nil)
@@ -391,6 +424,17 @@ func ksGenerate(s *simrt.Sim, nconn int, flashValid string) []*ksReq {
 		case 4:
 			r.kind = "bind-query"
 			path = "/bind?q=" + simrt.PickS(s, "x", "alpha", "Zz9") + "&n=" + strconv.Itoa(s.Draw(100)) + "&l=a&l=b"
+			switch s.Draw(4) {
+			case 1:
+				r.kind = "bind-query-bad"
+				path = "/bind?q=x&n=not-a-number"
+			case 2:
+				r.kind = "bind-auto"
+				path = "/bind-auto?q=" + simrt.PickS(s, "x", "alpha") + "&n=" + strconv.Itoa(s.Draw(100))
+			case 3:
+				r.kind = "bind-auto-bad"
+				path = "/bind-auto?q=x&n=not-a-number"
+			}
 		case 5:
 			r.kind = "bind-form"
 			method, path = "POST", "/bind"
@@ -401,6 +445,11 @@ func ksGenerate(s *simrt.Sim, nconn int, flashValid string) []*ksReq {
 			method, path = "POST", "/bind"
 			body = fmt.Sprintf(`{"name":%q,"age":%d}`, simrt.PickS(s, "ann", "bob-the-builder"), s.Draw(90))
 			ctype = "application/json"
+			if s.Chance(400) {
+				r.kind = "bind-json-generic"
+				path = "/bind?generic=1"
+				ctype = simrt.PickS(s, "Application/JSON; charset=UTF-8", "application/json", "APPLICATION/JSON")
+			}
 		case 7:
 			r.kind = "redirect"
 			method, path = "POST", "/go?m="+simrt.PickS(s, "done", "saved", "x")
@@ -477,6 +526,12 @@ func ksGenerate(s *simrt.Sim, nconn int, flashValid string) []*ksReq {
 		if s.Chance(200) {
 			hdr = append(hdr, [2]string{"User-Agent", "ua-" + strconv.Itoa(i)})
 		}
+		if s.Chance(150) {
+			hdr = append(hdr, [2]string{"X-Forwarded-Proto", simrt.PickS(s, "https", "http")})
+		}
+		if s.Chance(200) {
+			hdr = append(hdr, [2]string{"X-Forwarded-For", simrt.PickS(s, "203.0.113.7", "198.51.100.23, 10.0.0.1", "2001:db8::1", "not-an-ip, 192.0.2.44")})
+		}
 		host := simrt.PickS(s, "example.com", "sub.example.com", "a.b.example.org:8080")
 		r.wire["Host"] = host
 		r.wire["Body"] = body
@@ -488,6 +543,10 @@ func ksGenerate(s *simrt.Sim, nconn int, flashValid string) []*ksReq {
 
 func ksRun(s *simrt.Sim, info *harness.RunInfo, immutMode bool) {
 	cfg := fiber.Config{CaseSensitive: s.Chance(300), StrictRouting: s.Chance(300), UnescapePath: s.Chance(300)}
+	if s.Chance(400) {
+		cfg.ProxyHeader = "X-Forwarded-For"
+		cfg.EnableIPValidation = s.Chance(600)
+	}
 	if immutMode {
 		cfg.Immutable = !s.Chance(300)
 	} else {
@@ -495,7 +554,7 @@ func ksRun(s *simrt.Sim, info *harness.RunInfo, immutMode bool) {
 	}
 	nconn := s.Range(1, harness.Scale(4, 6))
 	preempt := simrt.PickS(s, 150, 0, 50, 400)
-	cfgLine := fmt.Sprintf("immutMode=%v immutable=%v caseSensitive=%v strict=%v unescape=%v conns=%d preempt=%d", immutMode, cfg.Immutable, cfg.CaseSensitive, cfg.StrictRouting, cfg.UnescapePath, nconn, preempt)
+	cfgLine := fmt.Sprintf("immutMode=%v immutable=%v caseSensitive=%v strict=%v unescape=%v proxyHeader=%q ipValidation=%v conns=%d preempt=%d", immutMode, cfg.Immutable, cfg.CaseSensitive, cfg.StrictRouting, cfg.UnescapePath, cfg.ProxyHeader, cfg.EnableIPValidation, nconn, preempt)
 	s.Logf("cfg %s", cfgLine)
 
 	w := &ksWorld{s: s, immutMode: immutMode, immutable: cfg.Immutable}
